@@ -1803,7 +1803,7 @@ fn main() {
     let big_pct = env.budget(6, 3);
     let round_size = 20_000usize;
     // development aid: VERIF_C16_ROUNDS overrides the number of rounds of the tier
-    let rounds = std::env::var("VERIF_C16_ROUNDS").ok().and_then(|s| s.parse::<usize>().ok()).unwrap_or(env.budget(12, 100));
+    let rounds = std::env::var("VERIF_C16_ROUNDS").ok().and_then(|s| s.parse::<usize>().ok()).unwrap_or(env.budget(12, 80));
 
     let mut distinct: HashSet<u128> = HashSet::new();
     let mut reached = 0u64;
